@@ -13,20 +13,27 @@ NEST = {
     "loop":     ('for (let inner_i = 0; inner_i < 3; inner_i++) { let inner_l = inner_i; LOG(inner_l); if (inner_i === 1) { DIE } }', False),
     "method":   ('{ class inner_cls { m(inner_m: number) { const o = { f: () => { LOG(inner_m); DIE } }; o.f(); } } new inner_cls().m(4); }', False),
     "callback": ('[1, 2, 3].forEach((inner_m) => { LOG(inner_m); if (inner_m === 2) { DIE } });', False),
+    # suspended on a promise nobody will settle (not an order): only meaningful when the host abandons the run
+    "await_never": ('async function an() { let inner_a = 1; try { await new Promise(() => {}); DIE } finally { LOG(0); } return inner_a; } LOG(await an());', True),
+    "await_top":   ('let inner_b = 1; { let inner_c = 2; LOG(inner_b); await new Promise(() => {}); DIE }', True),
     "async":    ('async function af() { let inner_a = 1; LOG(await order(1)); { let inner_c = 2; DIE } return inner_a; } LOG(await af());', True),
 }
 DIE = {"complete": "", "throw": 'throw new Error("die");', "abandon": ""}
 
 
+NEVER_COMPLETES = {"await_never", "await_top"}      # these runs can only be abandoned
+
+
 def death_program(nest, mode, depth=3):
     tpl, needs_async = NEST[nest]
     body = tpl.replace("DIE", DIE[mode]).replace("DEPTH", str(depth))
-    return (HDRA if needs_async else HDR) + body + "\n", needs_async
+    # every dead program also exports something first: the export table of a dead run must not reach a later run
+    return (HDRA if needs_async else HDR) + "export const dead_e = 1; export function dead_f() { return 2; }\n" + body + "\n", needs_async
 
 
 def observer():
     probes = ", ".join("typeof %s" % n for n in INNER)
-    src = HDR + ("LOG([%s].join(\",\"));\n" % probes) + \
+    src = HDR + "export const ob_e = 1; export function ob_f() { return 2; }\n" + ("LOG([%s].join(\",\"));\n" % probes) + \
         'let ob1 = 5; { let ob2 = ob1 + 1; LOG(ob2); }\n' \
         'function obf(n: number): number { return n <= 0 ? 0 : n + obf(n - 1); } LOG(obf(5));\n' \
         'try { throw 1; } catch (e) { LOG(e); } finally { LOG(2); }\n' \
@@ -35,3 +42,6 @@ def observer():
     exp = ["L|s:" + ",".join(str(ord(c)) for c in ",".join(["undefined"] * len(INNER))), "L|n:6", "L|n:15", "L|n:1", "L|n:2", "L|n:2",
            "L|s:" + ",".join(str(ord(c)) for c in "number")]
     return src, exp
+
+
+OBSERVER_EXPORTS = ["ob_e", "ob_f"]
